@@ -2,6 +2,7 @@ package main
 
 import (
 	"log/slog"
+	"os"
 
 	"gitlab.com/gomidi/midi/v2"
 	_ "gitlab.com/gomidi/midi/v2/drivers/testdrv" // autoregisters driver
@@ -11,5 +12,7 @@ func main() {
 	defer midi.CloseDriver()
 	if err := rootCmd.Execute(); err != nil {
 		slog.Error("Err", slog.Any("err", err))
+		midi.CloseDriver()
+		os.Exit(1)
 	}
 }
